@@ -19,6 +19,9 @@ import (
 	"verifharness/ref"
 )
 
+// staleSigEntries counts generated entries with left-over signature fields (class population).
+var staleSigEntries int
+
 type logEntry struct {
 	t     time.Time
 	flat  ref.Frame   // what must be on the wire
@@ -76,6 +79,13 @@ func drawEntry(t *rapid.T, di *dialectInfo, allowBad bool) logEntry {
 			}
 		}
 		e.flat, e.lib = f, gen.ToLib(f)
+		if v2f, ok := e.lib.(*frame.V2Frame); ok && !f.Signed() && rapid.IntRange(0, 3).Draw(t, "leftover_signature_fields") == 0 {
+			// a frame whose signed flag was cleared keeps its old signature fields in memory: the flag decides
+			// what is written, as it decides what a reader expects
+			v2f.Signature = &frame.V2Signature{9, 8, 7, 6, 5, 4}
+			v2f.SignatureLinkID, v2f.SignatureTimestamp = 3, 123456789
+			staleSigEntries++
+		}
 	case "decoded":
 		f, lay, val := validFrame(t, di, gen.FrameOpts{}, nil)
 		f.Payload = lay.Encode(val, f.V2)
@@ -236,7 +246,7 @@ func readLogFrom(src io.Reader, n int, drw *dialect.ReadWriter) ([]*tlog.Entry, 
 
 func TestC20Logs(t *testing.T) {
 	rec := evid.New(t, "C20", "generated entry sequences (0..30 entries: v1/v2/signed frames, raw and dialect messages, times on both sides of the epoch with sub-microsecond parts, unencodable entries interleaved) written with tlog.Writer; oracles: file bytes == concatenation of BE64(floor(t,us)) ++ reference frame bytes, unencodable entries return an error and leave the file untouched, read-back equals what was written, every truncation point of the file yields exactly the complete entries before the cut and then an error, a failing io.Writer is reported; non-trivial = >=3 entries of mixed versions with a negative or sub-us timestamp, or an unencodable entry between good ones; distinct by hash of the file")
-	rec.Require("cut-in-timestamp", "cut-in-header", "cut-in-payload", "cut-in-signature", "bad-entry-between-good", "negative-time", "sub-us", "writer-fault", "dialect", "longer-than-reader-window", "longer-than-3-reader-windows", "file-arrives-in-pieces")
+	rec.Require("cut-in-timestamp", "cut-in-header", "cut-in-payload", "cut-in-signature", "bad-entry-between-good", "negative-time", "sub-us", "writer-fault", "dialect", "longer-than-reader-window", "longer-than-3-reader-windows", "file-arrives-in-pieces", "unsigned-entry-with-leftover-signature-fields")
 	dpool := pool(t)
 	errBoom := errors.New("injected write error")
 	evid.Check(t, rec, evid.N(4000, 12000), func(t *rapid.T) {
@@ -454,6 +464,10 @@ func TestC20Logs(t *testing.T) {
 			cls = append(cls, "longer-than-3-reader-windows")
 		}
 		nt := badBetween || (len(good) >= 3 && len(versions) == 2 && (negative || subus))
+		if staleSigEntries > 0 {
+			cls = append(cls, "unsigned-entry-with-leftover-signature-fields")
+			staleSigEntries = 0
+		}
 		rec.Case(nt, evid.Hash(file, []byte(fmt.Sprint(n))), cls...)
 		if nt && rec.WantSample("log") && len(file) < 300 {
 			rec.Sample("log", map[string]interface{}{"entries_written": len(good), "attempted": n, "file": fmt.Sprintf("%x", file), "cuts_checked": len(file)})
